@@ -41,9 +41,18 @@ impl WriteBackend for Null {
 
 fuzz_target!(|bytes: &[u8]| {
     let mut u = Unstructured::new(bytes);
+    // Keys are expanded from a seed: real keys are 64 uniformly random bytes. Raw fuzzer-chosen key
+    // bytes quickly reach degenerate Poly1305 parameters (r = 0 or tiny), for which forgeries exist
+    // by construction of the MAC — that is not a property of the library.
+    let Ok(seed) = u.arbitrary::<u64>() else { return };
     let mut key = [0u8; 64];
-    if u.fill_buffer(&mut key).is_err() {
-        return;
+    let mut z = seed;
+    for chunk in key.chunks_mut(8) {
+        z = z.wrapping_add(0x9E37_79B9_7F4A_7C15);
+        let mut x = z;
+        x = (x ^ (x >> 30)).wrapping_mul(0xBF58_476D_1CE4_E5B9);
+        x = (x ^ (x >> 27)).wrapping_mul(0x94D0_49BB_1331_11EB);
+        chunk.copy_from_slice(&(x ^ (x >> 31)).to_le_bytes());
     }
     let level: Option<i32> = match u.int_in_range(0..=4u8).unwrap_or(0) {
         0 => None,
@@ -69,6 +78,9 @@ fuzz_target!(|bytes: &[u8]| {
 
     // mutation script
     let mut m = msg.clone();
+    // every authentic message of this key that took part: ending up with one of them is substitution
+    // by a valid message (e.g. a splice point inside a coinciding nonce prefix), not a forgery
+    let mut authentic = vec![msg.clone()];
     for (kind, pos, val) in muts {
         match kind {
             0 => {
@@ -85,13 +97,18 @@ fuzz_target!(|bytes: &[u8]| {
             _ => {
                 // splice with a second valid message of the same key
                 let other = rustic_core::verif::encrypt(&key, &[val; 40]).expect("encrypt");
-                let p = usize::from(pos) % (m.len() + 1);
-                m.truncate(p);
-                m.extend_from_slice(&other[other.len().min(p)..]);
+                // a splice point of 0 would simply substitute another authentic message
+                authentic.push(other.clone());
+                let upper = m.len().min(other.len());
+                if upper > 1 {
+                    let p = 1 + usize::from(pos) % (upper - 1);
+                    m.truncate(p);
+                    m.extend_from_slice(&other[p..]);
+                }
             }
         }
     }
-    if m != msg {
+    if !authentic.contains(&m) {
         assert!(rustic_core::verif::decrypt(&key, &m).is_err(), "modified message accepted");
     }
 
